@@ -20,6 +20,8 @@ pub struct Rw {
     pub loop_counter: usize,
     pub unsupported: Vec<String>,
     pub closure_counter: usize,
+    /// trait methods whose every impl in the repo has an empty body (checked by main on each run)
+    pub noop_methods: HashSet<String>,
 }
 
 const LOG_MACROS: &[&str] = &["error", "warn", "info", "debug", "trace"];
@@ -119,6 +121,7 @@ impl Rw {
             loop_counter: 0,
             unsupported: vec![],
             closure_counter: 0,
+            noop_methods: HashSet::new(),
         }
     }
 
@@ -283,6 +286,17 @@ impl VisitMut for Rw {
                     keep.push(parse_quote!(let mut __i: usize = 0;));
                     keep.push(Stmt::Expr(parse_quote!(while __i < #recv.len() { let #pat = &#recv[__i]; #body; __i += 1; }), None));
                     self.log.push("R7 iter().for_each -> index loop".into());
+                }
+                Stmt::Expr(Expr::MethodCall(m), _) if m.method == "for_each" && m.args.len() == 1 && is_iter_mut_call(&m.receiver) => {
+                    // R7b: `x.iter_mut().for_each(|p| s.m())` where every impl of `m` in the repo has an empty body is a no-op
+                    let ok = if let Expr::Closure(c) = &m.args[0] {
+                        matches!(&*c.body, Expr::MethodCall(b) if b.args.is_empty() && self.noop_methods.contains(&b.method.to_string()) && matches!(&*b.receiver, Expr::Path(_)))
+                    } else { false };
+                    if ok {
+                        self.log.push("R7b iter_mut().for_each(no-op method) dropped".into());
+                    } else {
+                        self.unsupported.push(format!("iter_mut().for_each with a body that is not a known no-op: {}", m.to_token_stream()));
+                    }
                 }
                 Stmt::Expr(e, _) => {
                     if expr_cfg_false(e) {
@@ -554,6 +568,10 @@ impl Rw {
             prev = c;
         }
     }
+}
+
+fn is_iter_mut_call(e: &Expr) -> bool {
+    matches!(e, Expr::MethodCall(m) if m.method == "iter_mut" && m.args.is_empty())
 }
 
 fn is_iter_call(e: &Expr) -> bool {
